@@ -452,8 +452,8 @@ def run(ctx: lib.Ctx) -> None:
     if ctx.thorough:
         lens = list(range(0, NMAX + 1)) + sorted(rng.sample(range(NMAX + 1, 1500), 12))
     else:
-        lens = sorted(set(list(range(0, 66)) + [2 ** k + d for k in range(7, 10) for d in (-1, 0, 1, 2)] + [600, 599, 384, 385]
-                          + rng.sample(range(66, NMAX), 4)))
+        lens = sorted(set(list(range(0, 41)) + [2 ** k + d for k in range(6, 10) for d in (-1, 0, 1, 2)] + [600, 599, 384, 385]
+                          + rng.sample(range(41, NMAX), 4)))
     allcases = []  # (cost, (literal, stream, meta))
     for n in lens:
         if n not in free:
@@ -462,10 +462,10 @@ def run(ctx: lib.Ctx) -> None:
         allcases.append((3 * n + 20, (f'(CFree {cnat(n)} {pos_chunks(free[n])})', 'free', n)))
     ctx.extra['free_lengths_in_coq'] = len(lens)
 
-    # ---- 3. numeric algebra (thorough: every length three times; quick: every length up to 128, then every fourth and the powers of two)
+    # ---- 3. numeric algebra (thorough: every length three times; quick: every length up to 72, then every sixth and the powers of two)
     for rep in range(ctx.n(1, 3)):
         for n in range(0, NMAX + 1):
-            if not ctx.thorough and n > 128 and n % 4 and not any(abs(n - 2 ** k) <= 2 for k in (8, 9)) and n < 598:
+            if not ctx.thorough and n > 72 and n % 6 and not any(abs(n - 2 ** k) <= 2 for k in (8, 9)) and n < 598:
                 continue
             seed, e = rng.randrange(1, NUMP), rng.choice([0, 1, rng.randrange(NUMP)])
             v = num_run(n, seed, e)
@@ -489,7 +489,7 @@ def run(ctx: lib.Ctx) -> None:
         glue.append((doc['kind'], doc['lists'], doc['pred'], doc['round'], 'corpus'))
     for kind, lists, pred, rnd in vectors:
         glue.append((kind, lists, pred, rnd, 'vector'))
-    glue += gen_glue(rng, ctx.n(32, 600))
+    glue += gen_glue(rng, ctx.n(28, 600))
     for kind, lists, pred, rnd, tag in glue:
         got, calls, err = glue_impl(kind, lists, pred, rnd)
         want = glue_spec(kind, lists, pred, rnd)
@@ -508,7 +508,7 @@ def run(ctx: lib.Ctx) -> None:
                          (f'(CGlue {coq_glue_case(kind, lists, pred, rnd, tables)} {out})', 'glue', (kind, lists, pred, rnd, got, want, err))))
 
     # ---- 6. (A): the model evaluates every collected case inside coqc
-    shard = ctx.n(64, 120)
+    shard = ctx.n(56, 120)
     ordered = balanced(allcases, shard)
     bad = ctx.coq_mismatches('cases', IMPORTS, 'ccheck', 'Bool.eqb', 'ccase', 'bool', [(lit, 'true') for lit, _, _ in ordered], shard=shard)
     ctx.extra['coq_cases'] = {k: sum(1 for _, s_, _ in ordered if s_ == k) for k in ('free', 'num', 'glue')}
@@ -544,3 +544,27 @@ def ctx_corpus(ctx):
         docs.append(json.load(open(p)))
     ctx.corpus_cases += len(docs)
     return docs
+
+
+def replay(ctx, doc) -> bool:
+    """re-evaluate the property's oracle (B) on the input stored in a replay file; True = it still fails"""
+    import pytezos.crypto.hash as H
+    if 'hashes' in doc:
+        hs = [bytes.fromhex(x) for x in doc['hashes']]
+        ok, got = lib.call(H._reduce_operation_hashes, list(hs))
+        want = spec_merkle_bytes(hs)
+        print(f'replay: got={got.hex() if ok and isinstance(got, bytes) else got!r} want={want.hex()}')
+        return not ok or got != want
+    if 'function' in doc and 'lists' in doc:
+        names = ['operation_list_hash', 'operation_list_list_hash', 'block_payload_hash', '_reduce_operation_hashes']
+        kind = names.index(doc['function']) if doc['function'] in names else int(doc['function'])
+        got, _, err = glue_impl(kind, doc['lists'], doc.get('predecessor', ''), doc.get('round', 0))
+        want = glue_spec(kind, doc['lists'], doc.get('predecessor', ''), doc.get('round', 0))
+        print(f'replay: got={got!r} want={want!r} error={err}')
+        return want is not None and got != want
+    if 'args' in doc:
+        args = [bytes.fromhex(x) for x in doc['args']]
+        ok, got = lib.call(H._hash_tuple, *args)
+        return not ok or got != b2(b''.join(args))
+    print('replay: no failing input in this file (correspondence / proof break)')
+    return False
